@@ -4,6 +4,7 @@ from __future__ import annotations
 
 import copy
 import random
+import traceback
 
 from amaranth import Module, Signal, Shape, signed, unsigned
 from amaranth.lib import data
@@ -67,38 +68,44 @@ def chk_transpose(rec, rnd, n):
             rec.check("transpose_layout_involution", back == lay, case=case, detail=repr(back))
         except ValueError as e:
             rec.check("transpose_layout_involution", False, case=case, detail=repr(e))
-        val = rnd.getrandbits(w)
-        const = lay.from_bits(val)
-        tc = transpose(const)
-        ok = all(tc[i][o] == const[o][i] for o in okeys for i in ikeys)
-        rec.check("transpose_const_swaps_levels", ok and isinstance(tc, data.Const), case=case, detail={"value": val})
-        rec.check("transpose_const_involution", transpose(tc) == const, case=case, detail={"value": val})
-        # views: evaluate in simulation
-        sig = Signal(lay)
-        tv = transpose(sig)
-        m = Module()
-        probes = []
-        for o in okeys:
-            for i in ikeys:
-                a = Signal(Shape.cast(lay[o].shape[i].shape).width, name="a")
-                b = Signal(Shape.cast(lay[o].shape[i].shape).width, name="b")
-                m.d.comb += [a.eq(sig[o][i]), b.eq(tv[i][o])]
-                probes.append((o, i, a, b))
-        bb = Signal(w)
-        m.d.comb += bb.eq(transpose(tv).as_value())
-        sim = Simulator(m)
-        out = {}
+        try:
+            val = rnd.getrandbits(w)
+            const = lay.from_bits(val)
+            tc = transpose(const)
+            ok = all(tc[i][o] == const[o][i] for o in okeys for i in ikeys)
+            rec.check("transpose_const_swaps_levels", ok and isinstance(tc, data.Const), case=case, detail={"value": val})
+            rec.check("transpose_const_involution", transpose(tc) == const, case=case, detail={"value": val})
+            # views: evaluate in simulation
+            sig = Signal(lay)
+            tv = transpose(sig)
+            m = Module()
+            probes = []
+            for o in okeys:
+                for i in ikeys:
+                    a = Signal(Shape.cast(lay[o].shape[i].shape).width, name="a")
+                    b = Signal(Shape.cast(lay[o].shape[i].shape).width, name="b")
+                    m.d.comb += [a.eq(sig[o][i]), b.eq(tv[i][o])]
+                    probes.append((o, i, a, b))
+            bb = Signal(w)
+            m.d.comb += bb.eq(transpose(tv).as_value())
+            sim = Simulator(m)
+            out = {}
 
-        async def tb(ctx):
-            ctx.set(sig.as_value(), val)
-            out["pairs"] = [(o, i, ctx.get(a), ctx.get(b)) for o, i, a, b in probes]
-            out["back"] = ctx.get(bb)
+            async def tb(ctx):
+                ctx.set(sig.as_value(), val)
+                out["pairs"] = [(o, i, ctx.get(a), ctx.get(b)) for o, i, a, b in probes]
+                out["back"] = ctx.get(bb)
 
-        sim.add_testbench(tb)
-        sim.run()
-        bad = [(o, i, a, b) for o, i, a, b in out["pairs"] if a != b]
-        rec.check("transpose_view_swaps_levels", not bad and tv.shape() == tl, case=case, detail={"value": val, "mismatch": bad[:3]})
-        rec.check("transpose_view_involution", out["back"] == val, case=case, detail={"value": val, "back": out["back"]})
+            sim.add_testbench(tb)
+            sim.run()
+            bad = [(o, i, a, b) for o, i, a, b in out["pairs"] if a != b]
+            rec.check("transpose_view_swaps_levels", not bad and tv.shape() == tl, case=case, detail={"value": val, "mismatch": bad[:3]})
+            rec.check("transpose_view_involution", out["back"] == val, case=case, detail={"value": val, "back": out["back"]})
+        except Exception:
+            # transpose is total on well-formed layouts: an exception here is an observable misbehaviour of the helper, not a harness problem
+            rec.check("transpose_evaluates_on_well_formed_layout", False, case=case, detail=traceback.format_exc()[-900:])
+            continue
+        rec.check("transpose_evaluates_on_well_formed_layout", True)
         rec.count("evaluations", 6)
         rec.nontrivial(f"transpose|{type(lay).__name__}|{len(okeys)}x{len(ikeys)}|{'s' if isinstance(ikeys[0], str) else 'a'}")
         if len(rec.samples) < 2:
